@@ -26,7 +26,7 @@ import (
 func contractMode(r *common.Run, sk *sink) {
 	r.SetRule("each case = one 3-host cluster with three shards (regular, concurrent, on-disk state machine) under concurrent proposals, lookups (ReadLocalNode/StaleRead/SyncRead, PRNG-chosen slowness), periodic + requested snapshots, a partitioned follower that is repaired by snapshot, StopShard/StopReplica + restart, graceful host restart and final close under load; every state machine call is checked online (index order per incarnation, no forbidden overlap, nothing after Close, no entry delivered twice, on-disk SM never handed an entry at or below the index returned by Open); non-trivial = at least one stop/close happened while lookups were in flight and all three kinds saw snapshots; distinct by hash of per-kind call counts. Then catch-up cases: 3 replicas (+1 joining non-voting replica) of one PRNG-chosen state machine kind under continuous writes, 8-13 cycles of cutting off / crashing a follower until the log it misses is compacted, repair by file or streamed snapshot, requested and exported snapshots on all replicas, PrepareSnapshot and Sync dwelling 0-2 ms; same online monitors")
 	r.Assume("overlaps are judged by entry/exit stamps taken inside the user state machine methods; only overlaps forbidden by the documented contract are flagged (lookups overlapping updates are legal for concurrent and on-disk state machines)")
-	n := r.Pick(6, 120)
+	n := r.Pick(12, 120)
 	for _, c := range r.MyCases(n) {
 		runContract(r, sk, c, r.Rand("contract", c), r.SubSeed("contract-seed", c))
 		r.Flush()
@@ -35,8 +35,8 @@ func contractMode(r *common.Run, sk *sink) {
 	// entries are applied, periodic Sync of on-disk state machines, requested and exported
 	// snapshots on every replica - with dwelling PrepareSnapshot / Sync so that an overlap the
 	// contract forbids lasts long enough to be seen by the online monitor
-	for _, c := range r.MyCases(r.Pick(12, 160)) {
-		runCatchUp(r, sk, c, r.Rand("catchup", c), r.SubSeed("catchup-seed", c))
+	for _, c := range r.MyCases(r.Pick(48, 400)) {
+		runCatchUpKind(r, sk, c, true, r.Rand("catchup", c), r.SubSeed("catchup-seed", c))
 		r.Flush()
 	}
 }
@@ -56,7 +56,7 @@ func runContract(r *common.Run, sk *sink, caseNo int, rng *rand.Rand, seed int64
 		slowLookup = time.Duration(ms) * time.Millisecond
 	}
 	slowSave := time.Duration(0)
-	if rng.Intn(2) == 0 {
+	if rng.Intn(3) > 0 {
 		slowSave = time.Duration(5+rng.Intn(40)) * time.Millisecond
 	}
 	closeDelay := time.Duration(rng.Intn(15)) * time.Millisecond
@@ -219,8 +219,9 @@ func runContract(r *common.Run, sk *sink, caseNo int, rng *rand.Rand, seed int64
 			time.Sleep(time.Duration(300+rng.Intn(500)) * time.Millisecond)
 			c.Net.Heal(h.Addr)
 			sk.Count("follower_isolated_then_healed", 1)
-		case 5: // graceful host restart under load
+		case 5: // graceful host restart under load, snapshots in progress
 			if nh != nil {
+				kickSnapshots(nh, sk)
 				noteStop()
 				h.Stop()
 				time.Sleep(20 * time.Millisecond)
@@ -234,7 +235,12 @@ func runContract(r *common.Run, sk *sink, caseNo int, rng *rand.Rand, seed int64
 		}
 		time.Sleep(time.Duration(80+rng.Intn(200)) * time.Millisecond)
 	}
-	// close everything while the load is still running
+	// close everything while the load is still running and snapshots are being saved
+	for _, h := range c.Hosts {
+		if nh := h.NodeHost(); nh != nil {
+			kickSnapshots(nh, sk)
+		}
+	}
 	noteStop()
 	c.StopAll()
 	atomic.StoreInt32(&stopFlag, 1)
@@ -265,6 +271,18 @@ func runContract(r *common.Run, sk *sink, caseNo int, rng *rand.Rand, seed int64
 		r.Sample(map[string]interface{}{"case": caseNo, "slow_lookup_ms": slowLookup.Milliseconds(), "slow_save_ms": slowSave.Milliseconds(),
 			"close_delay_ms": closeDelay.Milliseconds(), "calls_by_kind": perKind, "stops_while_lookups_in_flight": stopsDuringLookups})
 	}
+}
+
+// kickSnapshots asks for a snapshot of every shard on the host and returns a moment later, so
+// that a stop / close that follows finds snapshot workers inside the user state machine.
+func kickSnapshots(nh *dragonboat.NodeHost, sk *sink) {
+	for shard := uint64(1); shard <= 3; shard++ {
+		if rs, err := nh.RequestSnapshot(shard, dragonboat.SnapshotOption{}, time.Second); err == nil {
+			go func() { <-rs.ResultC(); rs.Release() }()
+			sk.Count("snapshots_requested_before_stop", 1)
+		}
+	}
+	time.Sleep(2 * time.Millisecond)
 }
 
 func hostNH(h *cluster.Host) *dragonboat.NodeHost { return h.NodeHost() }
